@@ -212,8 +212,10 @@ fn bits_case<S: Setup>(x: u64, class: &str, n: usize, k: u64, use_bits: u32, non
 }
 
 /// decompose_ext_to_base_coeffs(x) with mass moved between coefficients.
-fn coeff_case<S: Setup>(rng: &mut rand::rngs::SmallRng, family: u32, recompose_npo: bool, idx: usize) -> CaseResult {
-    let key = format!("{}:coeffs:f{family}:npo{recompose_npo}:{idx}", S::NAME);
+/// `consume`: 0 = the coefficients feed ALU rows; 1 = they are re-packed in rotated order by a second
+/// recomposition (what the challenger does at a misaligned rate offset), whose result feeds an ALU row.
+fn coeff_case<S: Setup>(rng: &mut rand::rngs::SmallRng, family: u32, recompose_npo: bool, consume: u32, idx: usize) -> CaseResult {
+    let key = format!("{}:coeffs:f{family}:npo{recompose_npo}:use{consume}:{idx}", S::NAME);
     if S::D == 1 {
         return CaseResult::held(key, false);
     }
@@ -226,9 +228,17 @@ fn coeff_case<S: Setup>(rng: &mut rand::rngs::SmallRng, family: u32, recompose_n
     let Ok(cs) = b.decompose_ext_to_base_coeffs::<S::B>(xin) else {
         return CaseResult::inconclusive(key, "decompose failed");
     };
-    // consume coefficient 0 and the last one
-    let m = b.mul(cs[0], cs[S::D - 1]);
-    let s = b.add(m, cs[0]);
+    let s = if consume == 1 {
+        let rot: Vec<_> = (0..S::D).map(|i| cs[(i + 1) % S::D]).collect();
+        let Ok(y) = b.recompose_base_coeffs_to_ext::<S::B>(&rot) else {
+            return CaseResult::inconclusive(key, "recompose failed");
+        };
+        b.mul(y, y)
+    } else {
+        // consume coefficient 0 and the last one
+        let m = b.mul(cs[0], cs[S::D - 1]);
+        b.add(m, cs[0])
+    };
     let out = b.public_input();
     b.connect(s, out);
     let Ok(mut circuit) = b.build() else {
@@ -270,18 +280,35 @@ fn coeff_case<S: Setup>(rng: &mut rand::rngs::SmallRng, family: u32, recompose_n
     if alt.iter().all(|c| is_base::<S>(c)) {
         return CaseResult::held(key, false).count("coeffs/alternative-is-canonical", 1);
     }
-    let out_val = alt[0] * alt[S::D - 1] + alt[0];
-    let outcome = prove_with_hint::<S>(&mut circuit, &[x, out_val], alt, recompose);
+    // the public output as the deviating prover computes it. A recomposition fed with non-base
+    // "coefficients" has no specified value: the ALU path multiplies them as extension elements,
+    // the table path packs their first components — the prover claims whichever gets accepted.
+    let out_vals: Vec<S::E> = if consume == 1 {
+        let rot: Vec<S::E> = (0..S::D).map(|i| alt[(i + 1) % S::D]).collect();
+        let y = basis_recompose::<S>(&rot);
+        let firsts: Vec<S::E> = rot.iter().map(|c| S::el(&[S::coeffs(c)[0]])).collect();
+        let y0 = basis_recompose::<S>(&firsts);
+        if y0 == y { vec![y * y] } else { vec![y * y, y0 * y0] }
+    } else {
+        vec![alt[0] * alt[S::D - 1] + alt[0]]
+    };
+    let mut outcome = Outcome::NoAlternative;
+    for out_val in out_vals {
+        outcome = prove_with_hint::<S>(&mut circuit, &[x, out_val], alt.clone(), recompose);
+        if matches!(outcome, Outcome::Accepted) {
+            break;
+        }
+    }
     match outcome {
         Outcome::Accepted => CaseResult::violated(
             key,
             format!("noncanonical-accepted/ext-coeffs/{}", if recompose { "recompose-table" } else { "alu-recomposition" }),
-            json!({"setup": S::NAME, "gadget": "decompose_ext_to_base_coeffs", "x": xc, "family": family, "recompose_npo": recompose}),
+            json!({"setup": S::NAME, "gadget": "decompose_ext_to_base_coeffs", "x": xc, "family": family, "recompose_npo": recompose, "consume": consume}),
         ),
         Outcome::NoAlternative => CaseResult::inconclusive(key, "hint op not found"),
-        Outcome::RunRejected(_) => CaseResult::held(key, true).count(format!("coeffs/rejected-by-run/npo={recompose}"), 1),
-        Outcome::ProverRejected(_) => CaseResult::held(key, true).count("coeffs/rejected-by-prover", 1),
-        Outcome::VerifierRejected(_) => CaseResult::held(key, true).count("coeffs/rejected-by-verifier", 1),
+        Outcome::RunRejected(_) => CaseResult::held(key, true).count(format!("coeffs/rejected-by-run/npo={recompose}/use={consume}"), 1),
+        Outcome::ProverRejected(_) => CaseResult::held(key, true).count(format!("coeffs/rejected-by-prover/use={consume}"), 1),
+        Outcome::VerifierRejected(_) => CaseResult::held(key, true).count(format!("coeffs/rejected-by-verifier/use={consume}"), 1),
     }
 }
 
@@ -316,7 +343,8 @@ fn case<S: Setup>(seed: u64, idx: usize, _tier: Tier) -> Vec<CaseResult> {
     } else {
         let fam = rng.random_range(0..3u32);
         let npo = rng.random_range(0..2u32) == 0;
-        out.push(coeff_case::<S>(&mut rng, fam, npo, idx));
+        let consume = rng.random_range(0..2u32);
+        out.push(coeff_case::<S>(&mut rng, fam, npo, consume, idx));
     }
     out
 }
@@ -334,7 +362,7 @@ fn replay(d: &Value) -> Vec<CaseResult> {
             )]
         } else {
             let mut rng = case_rng(0, "c12-replay", 0);
-            vec![coeff_case::<S>(&mut rng, d["family"].as_u64().unwrap() as u32, d["recompose_npo"].as_bool().unwrap(), 0)]
+            vec![coeff_case::<S>(&mut rng, d["family"].as_u64().unwrap() as u32, d["recompose_npo"].as_bool().unwrap(), d["consume"].as_u64().unwrap_or(0) as u32, 0)]
         }
     }
     let name = d["setup"].as_str().unwrap().to_string();
